@@ -767,7 +767,7 @@ pub fn mk_subject(kind: u32, cfg: &[i128], meta: &std::collections::HashMap<Stri
         5 => Box::new(lfu::mk_tiny(m("size") as usize, m("samples") as usize, FPS[m("fpi") as usize])),
         6 => Box::new(lfu::mk_sampled(cfg[0] as i64, cfg[1] as usize, m("ctor"))),
         7 => Box::new(putres::PutResSubj),
-        8 => Box::new(ctor::CtorSubj),
+        8 => Box::new(ctor::CtorSubj::default()),
         9 => Box::new(hlru::HLruSubj::new(cfg[0] as usize, m("hasher"))),
         11 => Box::new(hlru::HSlruSubj::new(cfg[0] as usize, cfg[1] as usize, m("hasher"))),
         12 => {
@@ -926,7 +926,7 @@ fn slice_ctor(a: &Args, t: &mut Trace) {
         for (ci, chunk) in g.chunks(400).enumerate() {
             let ops = chunk.to_vec();
             let id = format!("ctor-grid-{}", ci);
-            run_case(t, &id, 8, &[], "", &|| Box::new(ctor::CtorSubj), &mut scripted(ops), &tag);
+            run_case(t, &id, 8, &[], "", &|| Box::new(ctor::CtorSubj::default()), &mut scripted(ops), &tag);
         }
     }
     for i in 0..a.n {
@@ -936,7 +936,7 @@ fn slice_ctor(a: &Args, t: &mut Trace) {
         let mut r = rng_for(a.seed, i + 8_000_000);
         let len = a.len as usize;
         let id = format!("ctor-s{}-i{}", a.seed, i);
-        run_case(t, &id, 8, &[], "", &|| Box::new(ctor::CtorSubj), &mut |step, _| if step >= len { None } else { Some(ctor::random_op(&mut r)) }, &tag);
+        run_case(t, &id, 8, &[], "", &|| Box::new(ctor::CtorSubj::default()), &mut |step, _| if step >= len { None } else { Some(ctor::random_op(&mut r)) }, &tag);
     }
 }
 
